@@ -571,27 +571,11 @@ func fmtTxs(txs []*wire.MsgTx) string {
 	return joinOr(s, "|")
 }
 
-func genC10(r *Rng, tier string, emit func(Case)) {
-	e := func(op, cls string, args ...string) { emit(Case{op, cls, args}) }
-	n := 250
-	if tier == "thorough" {
-		n = 6000
-	}
-	for i := 0; i < n; i++ {
-		g := &genCtx{r: r}
-		for k := 0; k < 1+r.Intn(3); k++ {
-			g.secret = append(g.secret, r.Bytes(r.Pick(20, 33, 32, 20)))
-		}
-		k := 1 + r.Intn(7)
-		shape := r.Intn(3)
-		txs := g.genBlock(k, shape)
-		fa := seededFilter(g, txs)
-		e("txm", "seq", fa[0], fa[1], fa[2], fa[3], fmtTxs(txs))
-		mode := r.Intn(4)
-		blk := order(r, txs, mode)
-		e("blk", []string{"topo", "reverse", "ctor", "random"}[mode]+":shape"+itoa(shape), fa[0], fa[1], fa[2], fa[3], fmtTxs(blk))
-	}
-	e("blk", "empty", "00", "1", "0", "1", "-")
+
+// directedBlocks emits the directed transaction-filtering cases shared by C10 and C11 (both builders are compared in
+// every `blk` case): each match condition alone, and parent / child / grandchild spend graphs per script class, flag
+// and block order.
+func directedBlocks(r *Rng, tier string, e func(op, cls string, args ...string)) {
 	// directed: every one of the four ways a transaction can match, alone: txid / output push / spent outpoint /
 	// input-script push; with ordinary inputs and with a coinbase-shaped input (null outpoint)
 	for rep := 0; rep < 6; rep++ {
@@ -683,6 +667,30 @@ func genC10(r *Rng, tier string, emit func(Case)) {
 			}
 		}
 	}
+}
+
+func genC10(r *Rng, tier string, emit func(Case)) {
+	e := func(op, cls string, args ...string) { emit(Case{op, cls, args}) }
+	n := 250
+	if tier == "thorough" {
+		n = 6000
+	}
+	for i := 0; i < n; i++ {
+		g := &genCtx{r: r}
+		for k := 0; k < 1+r.Intn(3); k++ {
+			g.secret = append(g.secret, r.Bytes(r.Pick(20, 33, 32, 20)))
+		}
+		k := 1 + r.Intn(7)
+		shape := r.Intn(3)
+		txs := g.genBlock(k, shape)
+		fa := seededFilter(g, txs)
+		e("txm", "seq", fa[0], fa[1], fa[2], fa[3], fmtTxs(txs))
+		mode := r.Intn(4)
+		blk := order(r, txs, mode)
+		e("blk", []string{"topo", "reverse", "ctor", "random"}[mode]+":shape"+itoa(shape), fa[0], fa[1], fa[2], fa[3], fmtTxs(blk))
+	}
+	e("blk", "empty", "00", "1", "0", "1", "-")
+	directedBlocks(r, tier, e)
 	// chains in which every transaction spends two outputs of its parent: the shape on which the
 	// unrepaired scan was exponential (known_findings: fixed C08/C10 scan)
 	nc := 30
@@ -801,6 +809,7 @@ func genC11(r *Rng, tier string, emit func(Case)) {
 		d := 1 + r.Intn(n-1)
 		e("mb", "dups", itoa(n), "3", bitsString(r, n, 5+r.Intn(2)), itoa(d))
 	}
+	directedBlocks(r, tier, e)
 	// filter-induced subsets through both builders (shares the C10 machinery)
 	nb := 60
 	if tier == "thorough" {
